@@ -9,7 +9,7 @@ GEN = ["parse_tables", "literals"]
 TRUSTED = TRUSTED_BASE + [
     "full correctness of Eisel-Lemire / Bellerophon / big-integer slow path is NOT proved in Lean: the proved part is the oracle (roundNE) and the tables; the algorithms are compared with the oracle on number-theoretic worst cases",
 ]
-RULE = ("G-hard: per decimal power q, mantissas m < 10^19 (and near 2^53, and short) for which m*10^q is closest to a midpoint "
+RULE = ("G-ties: literals that are EXACTLY half-way between two adjacent floats for every q of the round-to-even window (plus just-above/just-below variants); G-hard: per decimal power q, mantissas m < 10^19 (and near 2^53, and short) for which m*10^q is closest to a midpoint "
         "between adjacent floats (Euclid-style search, hard/hardgen.py), each as plain / pointed / truncation-crossing "
         "((m-1)999.., m000..1) / zero-padded / 20..2000-digit-tail literals; G-exp: exponents at every cut-off; random structured "
         "decimals. non-trivial = accepted literal with a finite non-zero result or a result decided at a cut-off; distinct = distinct op lines")
@@ -30,6 +30,7 @@ def streams(tier, rng, fs, profile):
     n = 250 if tier == "quick" else 4000
     return [
         ("g-hard", gens.float_parse_hard_ops(rng, fs, [10], n, rich=True, tails=8 if tier == "quick" else 120)),
+        ("g-ties", gens.exact_tie_ops(rng, fs, per_q=6 if tier == "quick" else 60)),
         ("g-exp", gens.float_exp_ops(rng, fs, [10])),
         ("g-random", gens.float_random_ops(rng, fs, [10], 1500 if tier == "quick" else 30000)),
     ]
